@@ -317,6 +317,9 @@ class CrashSaveEngine(Engine):
                 big = "x = 1\n" + "".join("# padding line %d padding padding padding padding\n" % i for i in range(rng.choice([250, 500])))
                 steps.append({"op": "do", "cs": {"id": 9001, "desc": "cs9001", "ops": [["edit", rng.choice(files), big]]}})
                 swarm["big_history"] = True
+        if swarm.get("sibling_lib"):
+            # what analysis learns about the library outside the project is part of what gets saved
+            steps.insert(0, {"op": "analyze", "path": "uses_shelf.py"})
         base["steps"] = steps
         return base
 
@@ -329,13 +332,18 @@ class CrashSaveEngine(Engine):
 
     # ------------------------------------------------------------------
     def execute(self, trace):
+        trace = kernel.jsonify(trace)
         out = Outcome(PROP)
         out.trace = trace
         swarm = trace.get("swarm") or {}
         out.swarm = swarm
         limit = trace["limit"]
         prefs = {"automatic_soa": bool(swarm.get("soa", True)), "save_history": True, "save_objectdb": True}
-        W = World(trace["init"], limit=limit, ropefolder=ROPEFOLDER, prefs=prefs, tag="c18-")
+        from .reopen import SIBLING_LIB
+
+        W = World(trace["init"], limit=limit, ropefolder=ROPEFOLDER, prefs=prefs, tag="c18-",
+                  lib=SIBLING_LIB if swarm.get("sibling_lib") else None,
+                  fixed_key=("c18-" + kernel.short_hash(trace["steps"])) if swarm.get("sibling_lib") else None)
         reo = ReopenEngine()
         try:
             model = HistoryModel(TreeModel(W.snapshot()), limit)
@@ -417,7 +425,7 @@ class CrashSaveEngine(Engine):
                     out.stats["probe_torn_or_temp_state"] += 1
                 out.state(key)
                 verdict = self._recover(out, W, ropedir, files, label, accept_h, accept_o, modules, prefs, limit,
-                                        liveness=(n % every == 0))
+                                        liveness=(n % every == 0), hide_lib=(n % 2 == 1), deep=(n % 3 == 0))
                 out.log.add(ev="crash", label=label, state=key[:12], verdict=verdict)
             out.stats["crash_states"] += n
             # ---- the save is interrupted by an exception instead of a hard
@@ -457,6 +465,31 @@ class CrashSaveEngine(Engine):
                                 state=key[:12], verdict=verdict, on=getattr(rec2, "aborted_on", None), n_after=len(rec2.events),
                                 files={k: [len(v), hashlib.sha256(v).hexdigest()[:8]] for k, v in sorted(files.items())})
             out.stats["abort_states"] += n_ab
+            # ---- the previous version on disk may have been written by the rope release this tree
+            # started from (moves saved without the folder flag, edits without the newline
+            # convention): it must still open and be usable
+            if "history" in post and not out.violations:
+                import pickle
+
+                def legacy(d):
+                    kind, fields = d
+                    if kind == "ChangeSet":
+                        return kind, (fields[0], [legacy(c) for c in fields[1]], fields[2])
+                    if kind == "ChangeContents":
+                        return kind, tuple(fields[:3])
+                    if kind == "MoveResource":
+                        return kind, tuple(fields[:2])
+                    return kind, fields
+
+                try:
+                    undo, redo = pickle.loads(post["history"])
+                    old_format = dict(post, history=pickle.dumps([[legacy(d) for d in undo], [legacy(d) for d in redo]], 2))
+                except Exception as e:
+                    raise kernel.HarnessError("cannot rewrite the saved history in the older format: %r" % (e,))
+                out.evals += 1
+                out.stats["exec_older_format_history"] += 1
+                verdict = self._recover(out, W, ropedir, old_format, "older-format", None, accept_o, modules, prefs, limit, liveness=True)
+                out.log.add(ev="older_format", verdict=verdict)
             _write_dir(ropedir, post)
             out.schedules.add(kernel.short_hash([e[0] for e in events]))
             out.sim_s = W.clock.covered_s()
@@ -480,7 +513,25 @@ class CrashSaveEngine(Engine):
         p = Project(W.root, ropefolder=ROPEFOLDER, **W.prefs)
         return realize.history_struct(p), objectdb_view(p)
 
-    def _recover(self, out, W, ropedir, files, label, accept_h, accept_o, modules, prefs, limit, liveness):
+    def _recover(self, out, W, ropedir, files, label, accept_h, accept_o, modules, prefs, limit, liveness, hide_lib=False, deep=True):
+        self._deep = deep
+        # the world may have moved on while the project was closed: the library outside the
+        # project that stored object information refers to has been uninstalled
+        lib = getattr(W, "lib", None)
+        hidden = []
+        if hide_lib and lib:
+            for n in sorted(os.listdir(lib)):
+                if n.endswith(".py"):
+                    os.rename(os.path.join(lib, n), os.path.join(lib, n + ".gone"))
+                    hidden.append(n)
+            out.stats["probe_recovery_with_library_gone"] += 1
+        try:
+            return self._recover1(out, W, ropedir, files, label, accept_h, accept_o, modules, prefs, limit, liveness)
+        finally:
+            for n in hidden:
+                os.rename(os.path.join(lib, n + ".gone"), os.path.join(lib, n))
+
+    def _recover1(self, out, W, ropedir, files, label, accept_h, accept_o, modules, prefs, limit, liveness):
         from rope.base import exceptions
         from rope.base.project import Project
 
@@ -496,11 +547,18 @@ class CrashSaveEngine(Engine):
             return "open_raises"
         try:
             h = realize.history_struct(p)
+            # ... and shown the way a history view shows it
+            for c in list(p.history.undo_list) + list(p.history.redo_list):
+                str(c)
+                if not _has_bytes_contents(c):
+                    # (the textual preview is defined for text contents only; a change that carries
+                    # already-encoded bytes cannot be previewed in the session that made it either)
+                    c.get_description()
         except Exception as e:
             sig.update(stage="history", exc=type(e).__name__)
             out.violate("history_raises", sig, {"crash_point": label, "exc": repr(e)[:300], "files": _sizes(files)}, where=label)
             return "history_raises"
-        if h not in accept_h:
+        if accept_h is not None and h not in accept_h:
             sig.update(stage="history")
             out.violate("history_neither_old_nor_new", sig,
                         {"crash_point": label, "loaded": [[c[1] for c in h[0]], [c[1] for c in h[1]]], "files": _sizes(files)},
@@ -519,8 +577,17 @@ class CrashSaveEngine(Engine):
         for m in modules:
             try:
                 res = p.get_resource(m)
-                p.get_pymodule(res)
+                pm = p.get_pymodule(res)
                 p.pycore.analyze_module(res)
+                # ... and asked what its names are (inference consults the stored object information)
+                from rope.base import arguments, pyobjects
+
+                for nm, pyname in sorted(pm.get_attributes().items()) if self._deep else ():
+                    obj = pyname.get_object()
+                    if isinstance(obj, pyobjects.PyFunction):
+                        for i in range(len(obj.get_param_names(special_args=False))):
+                            obj.get_parameter(i)
+                        obj.get_returned_object(arguments.ObjectArguments([]))
             except exceptions.ModuleSyntaxError:
                 pass
             except Exception as e:
@@ -547,6 +614,8 @@ class CrashSaveEngine(Engine):
                 cs = rc.ChangeSet("live")
                 cs.add_change(rc.CreateFile(p.root, name))
                 p.do(cs)
+                p.history.undo()
+                p.history.redo()
                 p.close()
                 kernel.reset_rope_globals()
                 p2 = Project(W.root, ropefolder=ROPEFOLDER, **W.prefs)
@@ -565,6 +634,14 @@ class CrashSaveEngine(Engine):
                 except OSError:
                     pass
         return "ok"
+
+
+def _has_bytes_contents(c):
+    from rope.base import change as rc
+
+    if isinstance(c, rc.ChangeSet):
+        return any(_has_bytes_contents(x) for x in c.changes)
+    return isinstance(c, rc.ChangeContents) and (isinstance(c.new_contents, bytes) or isinstance(c.old_contents, bytes))
 
 
 def _read_dir(d):
